@@ -252,6 +252,9 @@ def gen_injectors(rng):
                 rows[(int(c) * 4 + j) % n][2] = c
         a = rng.randint(0, n - 2)
         b = rng.randint(a + 1, n)
+        if name in ("FeatureShiftInjector", "FeatureSwapInjector", "LabelSwapInjector", "LabelJoinInjector", "BrownianNoiseInjector") \
+                and rng.random() < 0.2:
+            b = a if rng.random() < 0.7 else max(0, a - 2)      # empty window (from == to, or from > to)
         calls.append({"rows": rows, "container": rng.choice(["nd", "nd", "df", "ndF", "view"]), "from": a, "to": b,
                       "shift": rng.choice([0.5, -1.0, 2.0]), "probs": rng.choice([{"0.0": 0.5}, {"0.0": 0.2, "1.0": 0.3}, {"1.0": 1.0}, {}]),
                       "alpha": {"0.0": rng.choice([1, 2]), "1.0": 1, "2.0": rng.choice([1, 3])}, "x0": rng.choice([0.0, 1.5]),
